@@ -41,6 +41,8 @@ def apply_op(op, gr, case):
         d = gr.disorient()
         return [sorted(GG.vid(v) for v in d.nodes()), [[GG.vid(a), GG.vid(b)] for a, b in d.edges()]]
     if op == "pre":
+        if case.get("order") is None:      # the ordering left to the graph: its own topological sort
+            return [GG.vid(v) for v in gr.pre(S)]
         return [GG.vid(v) for v in gr.pre(S, [GG.V(i) for i in case["order"]])]
     if op == "topological_sort":
         try:
@@ -121,7 +123,7 @@ class C14(PropBase):
                 case["S"] = case["S"] + [9]
         if op == "pre":
             order = list(ns); rng.shuffle(order)
-            case["order"] = order
+            case["order"] = order if (rng.random() < 0.7 or not GG.is_acyclic(g)) else None
             case["S"] = GG.rand_subset(rng, ns, 1, 3)
         if op == "get_nodes_in_directed_paths":
             case["S"] = GG.rand_subset(rng, ns, 1, 2)
@@ -133,6 +135,9 @@ class C14(PropBase):
         gr = GG.to_y0(g, loose=True)
         before = GG.snapshot(gr)
         out = apply_op(op, gr, case)
+        order_used = None
+        if op == "pre" and case.get("order") is None:
+            order_used = [GG.vid(v) for v in gr.topological_sort()]
         violation = None
         if GG.snapshot(gr) != before:
             violation = f"{op} modified its receiver"
@@ -140,7 +145,7 @@ class C14(PropBase):
         h = reorder(g, rng)
         case2 = dict(case, g=h, S=list(reversed(case.get("S", []))))
         out2 = apply_op(op, GG.to_y0(h, loose=True), case2)
-        if canon(op, out) != canon(op, out2) and violation is None:
+        if canon(op, out) != canon(op, out2) and violation is None and order_used is None:   # (pre() under the graph's own order follows that order)
             violation = f"{op} result depends on insertion order: {out} vs {out2}"
         if violation is None and op not in ("topological_sort", "pre"):
             violation = GG.renamed_differs(case, canon(op, out), lambda: canon(op, apply_op(op, GG.to_y0(g), case)))
@@ -149,8 +154,8 @@ class C14(PropBase):
         feats = [op, f"n={len(g['nodes'])}", "cyclic" if not GG.is_acyclic(g) else "acyclic"]
         if set(g["nodes"]) - {x for e in g["dir"] + g["bid"] for x in e}:
             feats.append("isolated-node")
-        return {"out": out, "violation": violation, "nontrivial": nontrivial, "features": feats,
-                "key": f"C14/{op}/" + ("mutation" if violation and "modified" in violation else "order")}
+        return {"out": out, "violation": violation, "nontrivial": nontrivial, "features": feats + (["default-ordering"] if order_used is not None else []),
+                "order_used": order_used, "key": f"C14/{op}/" + ("mutation" if violation and "modified" in violation else "order")}
 
     def coq(self, case, res):
         op, g, out = case["op"], c_graph(case["g"]), res["out"]
@@ -178,7 +183,7 @@ class C14(PropBase):
         if op == "disorient":
             return f"CDisorient {g} ({c_list(out[0])}, {c_pairs(out[1])})"
         if op == "pre":
-            return f"CPre {g} {c_list(case['order'])} {S} {c_list(out)}"
+            return f"CPre {g} {c_list(case['order'] if case.get('order') is not None else res['order_used'])} {S} {c_list(out)}"
         if op == "topological_sort":
             return f"CTopo {g} {c_opt(out, c_list)}"
         if op == "get_nodes_in_directed_paths":
